@@ -57,6 +57,10 @@ def run(ctx):
                 if okk and f.name != "msi::internal::table::Table::stream_name":
                     okk = re.search(r"s:'_String(Pool|Data)'", args[0]) is not None
                 ctx.check(okk, R1, "%s encodes a table name" % short(f.name), str(args), "%s encodes %s" % (short(f.name), args), f.loc(t["sp"]), fn=f.name)
+            elif f.name not in (P + "read_stream", P + "write_stream", P + "remove_stream", P + "has_stream"):
+                ctx.violation(R1, "%s calls streamname::encode" % short(f.name), "%s builds a container name with streamname::encode(%s) itself: only the four stream-API functions (is_table "
+                              "= false) and Table::stream_name / the pool names (is_table = true) may; a table's stream must be named through Table::stream_name()" % (short(f.name), args),
+                              f.loc(t["sp"]), fn=f.name, key="%s|stray-encode|%s" % (R1, short(f.name)))
             else:
                 ctx.check(is_table == "c:0", R1, "%s encodes a stream name" % short(f.name), str(args),
                           "%s encodes %s with is_table != false: a user stream name is mapped into the table namespace" % (short(f.name), args),
@@ -212,9 +216,24 @@ def b64_tables(ctx, rule="B64-TABLE"):
     f = prog.fn(SN + "decode")
     S = Sym(prog, f)
     cs = symcalls(prog, f, S)
-    rg = [a[0] for b, n, a, t in cs if n.endswith("::contains") and "Range" in a[0]]
-    ok = rg == ["&std::ops::Range::Range{c:14336,c:18432}", "&std::ops::Range::Range{c:18432,c:18496}"]
-    ctx.check(ok, rule, "decode ranges", "0x3800..0x4800 and 0x4800..0x4840", "decode tests %s; expected the half-open ranges 0x3800..0x4800 and 0x4800..0x4840 (the images of encode)" % rg, f.loc(), fn=f.name,
+    fbc = [(b, a[0]) for b, n, a, t in cs if n == SN + "from_b64"]
+    ivs = []
+    for b, a0 in fbc:
+        lo = hi = None
+        for (e, tr, g) in S.bool_facts_at(b):
+            m = re.search(r"Range::<Idx>::contains\(&std::ops::Range::Range\{c:(\d+),c:(\d+)\},", e)
+            if m and tr is True:
+                lo, hi = int(m.group(1)), int(m.group(2)) - 1
+            m = re.search(r"RangeInclusive", e)
+        if lo is None:
+            from .panic import _bounds_from_facts
+            vm = re.search(r"\(call@\d+:<std::iter::Peekable<I> as std::iter::Iterator>::next@Some\.0 as u32\)", a0)
+            if vm:
+                lo, hi = _bounds_from_facts(S.bool_facts_at(b), vm.group(0))
+        ivs.append((lo, hi))
+    ok = ivs == [(0x3800, 0x47ff), (0x3800, 0x47ff), (0x4800, 0x483f)]
+    ctx.check(ok, rule, "decode ranges", "0x3800..=0x47ff (pair) and 0x4800..=0x483f (single)", "decode unpacks under the value ranges %s; expected 0x3800..=0x47ff for the two pair characters and "
+              "0x4800..=0x483f for the single one (the images of encode; U+4840 is the table marker)" % [(lo is not None and hex(lo), hi is not None and hex(hi)) for lo, hi in ivs], f.loc(), fn=f.name,
               key=rule + "|decode-ranges")
     fb = [a[0] for b, n, a, t in cs if n == SN + "from_b64"]
     v = r"\(call@\d+:<std::iter::Peekable<I> as std::iter::Iterator>::next@Some\.0 as u32\)"
